@@ -242,8 +242,33 @@ def run_mc(progs_file, workdir, workers=8, timeout=1500):
         o = json.loads(s)
         unf = [i for i, r in enumerate(o["ret"]) if not r]
         key = canon_outcome(o["obs"], o["v"], unf)
-        outs.setdefault(o["p"], set()).add(key)
+        outs.setdefault(o["p"], {}).setdefault(key, o["w"])
     return outs, res
+
+
+def run_directed(progs_file, idx, witness, timeout=120):
+    """Binding C: follow a specification interleaving in the real runtime."""
+    cmd = [BIN, "directed", "--progs", progs_file, "--idx", str(idx), "--witness", json.dumps(witness)]
+    try:
+        r = subprocess.run(cmd, stdout=subprocess.PIPE, stderr=subprocess.PIPE, text=True, timeout=timeout)
+    except subprocess.TimeoutExpired:
+        raise ToolError("directed replay timed out")
+    if r.returncode != 0:
+        raise ToolError("directed replay failed: " + r.stderr[-1500:])
+    return json.loads(r.stdout.strip().splitlines()[-1])
+
+
+def divergence_signature(rep):
+    d = rep.get("divergence")
+    if d is None:
+        return "followed-to-different-outcome" if rep.get("followed") else "witness-not-exhausted"
+    if d["kind"] == "ran-ahead":
+        # the running task completed `this` although the witness needed another task's step first:
+        # the runtime offers no choice between the task's previous step and `this`
+        return f"no-scheduling-point-before({d['this']})"
+    if d["kind"] == "not-offered":
+        return f"needed-task-not-offered(pc{d['want'][1]})"
+    return d["kind"]
 
 
 def canon_outcome(obs, v, unf):
